@@ -17,6 +17,7 @@ import (
 
 	"github.com/cloudflare/pint/internal/promapi"
 	"github.com/cloudflare/pint/verifharness/explore"
+	"github.com/cloudflare/pint/verifharness/rt"
 )
 
 var epoch = time.Date(2024, 3, 10, 0, 0, 0, 0, time.UTC)
@@ -40,6 +41,8 @@ type fakeProm struct {
 	requests []request
 	series   []string
 	present  func(series int, t time.Time) bool
+	failAt   int // index (arrival order) of the request that fails with a 503, -1 = none
+	arrivals int
 }
 
 func (f *fakeProm) RoundTrip(req *http.Request) (*http.Response, error) {
@@ -54,7 +57,17 @@ func (f *fakeProm) RoundTrip(req *http.Request) (*http.Response, error) {
 	r := request{parseT(vals.Get("start")), parseT(vals.Get("end")), time.Duration(stepF * float64(time.Second))}
 	f.mu.Lock()
 	f.requests = append(f.requests, r)
+	mine := f.arrivals
+	f.arrivals++
 	f.mu.Unlock()
+	rt.Yield("http.arrive")
+	rt.Yield("http.respond")
+	if err := req.Context().Err(); err != nil {
+		return nil, err
+	}
+	if mine == f.failAt {
+		return &http.Response{StatusCode: 503, Status: "503", Header: http.Header{"Content-Type": []string{"application/json"}}, Body: io.NopCloser(strings.NewReader(`{"status":"error","errorType":"server_error","error":"overloaded"}`)), Request: req}, nil
+	}
 	var sb strings.Builder
 	sb.WriteString(`{"status":"success","data":{"resultType":"matrix","result":[`)
 	first := true
@@ -196,7 +209,7 @@ func body(c *explore.Chooser) *explore.Case {
 		}
 		return i
 	}
-	fp := &fakeProm{series: []string{"a", "b"}[:nseries], present: func(s int, t time.Time) bool {
+	fp := &fakeProm{failAt: -1, series: []string{"a", "b"}[:nseries], present: func(s int, t time.Time) bool {
 		i := idx(t)
 		return i >= 0 && pat[s][i]
 	}}
@@ -301,6 +314,98 @@ func body(c *explore.Chooser) *explore.Case {
 	return cs
 }
 
+// orders: all arrival orders of slice responses under the controlled scheduler.
+func orders(c *explore.Chooser) *explore.Case {
+	step := []time.Duration{5 * time.Minute, 7 * time.Minute}[c.Free(2, "step")]
+	length := []time.Duration{3 * time.Hour, 5 * time.Hour}[c.Free(2, "length")] // 2-3 / 3-4 slices
+	conc := 1 + c.Free(3, "concurrency")
+	fail := c.Free(2, "one-slice-fails") == 1
+	w := window{start: epoch.Add(30 * time.Minute), step: step}
+	w.end = w.start.Add(length)
+	sliceSize := (2 * time.Hour).Round(step)
+	t0 := w.start.Round(sliceSize)
+	if t0.After(w.start) {
+		t0 = t0.Add(-sliceSize)
+	}
+	// one series present everywhere except one grid point right after the first slice boundary; a second
+	// series present only around the second boundary
+	gap := t0.Add(sliceSize).Add(step)
+	fp := &fakeProm{failAt: -1, series: []string{"a", "b"}, present: func(s int, t time.Time) bool {
+		if s == 0 {
+			return !t.Equal(gap)
+		}
+		d := t.Sub(t0.Add(2 * sliceSize))
+		return d >= -2*step && d <= 2*step
+	}}
+	if fail {
+		fp.failAt = c.Free(3, "failing-arrival")
+	}
+	var res *promapi.RangeQueryResult
+	var err error
+	prom := promapi.VerifNewPrometheus("p", "http://fake", conc, fp, nil)
+	sched, reason := rt.RunOpt(c, rt.Options{Horizon: 50000, CostFree: true}, func() {
+		prom.StartWorkers()
+		res, err = prom.RangeQuery(context.Background(), "m", w)
+		prom.Close()
+	})
+	input := map[string]any{"step": step.String(), "length": length.String(), "concurrency": conc, "one_slice_fails": fail}
+	cs := &explore.Case{Input: input}
+	cs.Count("transitions", int64(sched.Points))
+	if reason != "" {
+		cs.Violate("orders: "+strings.SplitN(reason, ":", 2)[0], reason, input)
+		return cs
+	}
+	if un := sched.Unfinished(); len(un) > 0 {
+		cs.Violate("orders: goroutines left behind", fmt.Sprint(un), input)
+	}
+	var arrival []string
+	for _, r := range fp.requests {
+		arrival = append(arrival, r.start.Format("15:04"))
+	}
+	cs.AddToSet("arrival_orders", strings.Join(arrival, ","))
+	if fail {
+		cs.Outcome = "failed-slice"
+		if fp.failAt < len(fp.requests) && err == nil {
+			cs.Violate("orders: slice error swallowed", "one slice answered 503 but RangeQuery succeeded", input)
+		}
+		return cs
+	}
+	if err != nil {
+		cs.Violate("orders: unexpected error", err.Error(), input)
+		return cs
+	}
+	// reference without slices
+	var want []string
+	for s := 0; s < 2; s++ {
+		var run []time.Time
+		flush := func() {
+			if len(run) > 0 {
+				want = append(want, fmt.Sprintf("%s %s..%s", fp.series[s], run[0].Format("15:04:05"), run[len(run)-1].Add(step-time.Second).Format("15:04:05")))
+				run = nil
+			}
+		}
+		for t := t0; !t.After(w.end); t = t.Add(step) {
+			if fp.present(s, t) {
+				run = append(run, t)
+			} else {
+				flush()
+			}
+		}
+		flush()
+	}
+	var got []string
+	for _, r := range res.Series.Ranges {
+		got = append(got, fmt.Sprintf("%s %s..%s", r.Labels.Get("s"), r.Start.UTC().Format("15:04:05"), r.End.UTC().Format("15:04:05")))
+	}
+	sort.Strings(want)
+	sort.Strings(got)
+	cs.Outcome = "ok"
+	if strings.Join(want, ";") != strings.Join(got, ";") {
+		cs.Violate("orders: result depends on arrival order", fmt.Sprintf("slice responses arriving in order %v give %v, the unsliced reference is %v", arrival, got, want), input)
+	}
+	return cs
+}
+
 var tier string
 
 func ifThorough(a, b int) int {
@@ -313,9 +418,17 @@ func ifThorough(a, b int) int {
 func main() {
 	explore.Main(&explore.Config{
 		Property: "C13", Level: "exploration",
-		Rule: "real Prometheus.RangeQuery over a fake transport answering every query_range slice from a presence model; windows = 6 steps (incl. 7m and 11m which do not divide 2h) x 5 start offsets x 6 lengths x concurrency 1..3; presence patterns = ALL subsets of the grid for coarse grids (quick: <=7 points one series, <=3 two series; thorough: <=10 / <=5), otherwise always / one run / one gap / single missing point / single present point with end points on every window edge and within +-2 grid points of every slice boundary, for one and two series; oracle: every grid point requested exactly once on one global grid, result ranges = maximal runs of present consecutive grid points computed without slices",
-		Assumptions: []string{"presence is instantaneous (a sample exists at grid instant t iff the pattern says so)", "arrival order of slice responses is whatever the Go scheduler produces here; all arrival orders are enumerated separately under the controlled scheduler"},
-		Spaces:      []*explore.Space{{Name: "values", Body: body, Bound: func(string) int { return -1 }, Setup: func(t string) { tier = t }}},
+		Rule: "real Prometheus.RangeQuery over a fake transport answering every query_range slice from a presence model; windows = 6 steps (incl. 7m and 11m which do not divide 2h) x 5 start offsets x 6 lengths x concurrency 1..3; presence patterns = ALL subsets of the grid for coarse grids (quick: <=7 points one series, <=3 two series; thorough: <=10 / <=5), otherwise always / one run / one gap / single missing point / single present point with end points on every window edge and within +-2 grid points of every slice boundary, for one and two series; oracle: every grid point requested exactly once on one global grid, result ranges = maximal runs of present consecutive grid points computed without slices; space arrival-orders: the same client with its synchronisation replaced by scheduler shims, 2-4 slices, concurrency 1..3, a gap right after a slice boundary and a series straddling the next one: every schedule within 2 (thorough 3) departures from the default one, with happens-before state caching: result equals the unsliced reference, one failing slice makes the call fail, no deadlock, no goroutine left behind",
+		Assumptions: []string{"presence is instantaneous (a sample exists at grid instant t iff the pattern says so)", "in the values space the arrival order of slice responses is whatever the Go runtime produces; the arrival-orders space enumerates schedules under the controlled scheduler"},
+		Spaces: []*explore.Space{
+			{Name: "values", Body: body, Bound: func(string) int { return -1 }, Setup: func(t string) { tier = t }},
+			{Name: "arrival-orders", Body: orders, StateCache: true, Setup: func(t string) { tier = t }, Bound: func(t string) int {
+				if t == "thorough" {
+					return 3
+				}
+				return 2
+			}},
+		},
 		BudgetS: func(t string) int {
 			if t == "thorough" {
 				return 1500
